@@ -49,11 +49,16 @@ def check(ctx):
 
 # ------------------------------------------------------------------------------- D1
 def _sign_eval(guard, x):
-    """Truth of a canonical guard that compares local x with 0, for sign s of x; None when the guard does not mention x."""
+    """Truth of a canonical guard comparing local x with a number, per value of x in VALUES; None if x is not mentioned."""
     if not any(cm.is_name(n, x) for n in ast.walk(guard)):
         return None
     g = guard
     neg = False
+    if isinstance(g, ast.BoolOp):
+        parts = [_sign_eval(v, x) for v in g.values]
+        if any(p == 'unknown' for p in parts) or any(p is None for p in parts):
+            return 'unknown'
+        return {v: (all(p[v] for p in parts) if isinstance(g.op, ast.And) else any(p[v] for p in parts)) for v in VALUES}
     if isinstance(g, ast.UnaryOp) and isinstance(g.op, ast.Not):
         neg, g = True, g.operand
     if not (isinstance(g, ast.Compare) and len(g.ops) == 1):
@@ -64,15 +69,18 @@ def _sign_eval(guard, x):
     if op not in ops:
         return 'unknown'
 
-    def zero(e):
-        return isinstance(e, ast.Constant) and e.value == 0 and not isinstance(e.value, bool)
-    if cm.is_name(l, x) and zero(rr):
-        f = lambda s: ops[op](s, 0)
-    elif cm.is_name(rr, x) and zero(l):
-        f = lambda s: ops[op](0, s)
+    def num(e):
+        return e.value if isinstance(e, ast.Constant) and isinstance(e.value, (int, float)) and not isinstance(e.value, bool) else None
+    if cm.is_name(l, x) and num(rr) is not None:
+        f = lambda v: ops[op](v, num(rr))
+    elif cm.is_name(rr, x) and num(l) is not None:
+        f = lambda v: ops[op](num(l), v)
     else:
         return 'unknown'
-    return {s: (not f(s)) if neg else f(s) for s in (-1, 0, 1)}
+    return {v: (not f(v)) if neg else f(v) for v in VALUES}
+
+
+VALUES = (-2, -1, 0, 1, 2)
 
 
 def _flatten_add(e):
@@ -82,7 +90,7 @@ def _flatten_add(e):
 
 
 def d1_formula(ctx, idx):
-    r = ctx.rule('D1.FORMULA', 'consolidate_grades = max(0, (sum of credits - #surplus) / #expected), missing items count 0', floor=8)
+    r = ctx.rule('D1.FORMULA', 'consolidate_grades = max(0, (sum of credits - #surplus) / #expected), missing items count 0', floor=11)
     with r:
         fi = idx.func(cm.LG_MOD + '.consolidate_grades')
         if len(fi.params) != 2:
@@ -119,7 +127,7 @@ def d1_formula(ctx, idx):
                 else:
                     r.undecided('consolidate_grades: result', 'a path raises', where)
                 continue
-            feas = {-1, 0, 1}
+            feas = set(VALUES)
             unknown = False
             for g in p.guards:
                 ev = _sign_eval(g, X)
@@ -139,10 +147,11 @@ def d1_formula(ctx, idx):
             if bad_eff:
                 r.undecided('consolidate_grades: list update', 'grades updated by unrecognised `%s`' % short(bad_eff[0]), where)
                 continue
-            _formula_leaf(r, fi, p.leaf.expr, G, N, X, feas, where)
+            for sg in sorted({(v > 0) - (v < 0) for v in feas}, reverse=True):
+                _formula_leaf(r, fi, p.leaf.expr, G, N, X, {sg}, where)
             covered |= feas
-        if covered != {-1, 0, 1}:
-            r.undecided('consolidate_grades: case split', 'cases of n_extra not covered: %s' % sorted({-1, 0, 1} - covered), fi.loc)
+        if covered != set(VALUES):
+            r.undecided('consolidate_grades: case split', 'cases of n_extra not covered: %s' % sorted(set(VALUES) - covered), fi.loc)
 
 
 def _formula_leaf(r, fi, expr, G, N, X, signs, where):
@@ -236,7 +245,7 @@ def _formula_leaf(r, fi, expr, G, N, X, signs, where):
 # ------------------------------------------------------------------------------- D2
 def d2_single_return(ctx, idx):
     r = ctx.rule('D2.SWITCH', 'partial_credit=False turns anything below full item credit into 0; ok follows the grade; '
-                 'messages are the non-empty item messages', floor=10)
+                 'messages are the non-empty item messages', floor=11)
     with r:
         fi = idx.func(cm.LG_MOD + '.consolidate_single_return')
         if fi.params != ['input_list', 'n_expect', 'partial_credit']:
@@ -295,12 +304,10 @@ def d2_single_return(ctx, idx):
                     else:
                         r.undecided(construct, 'grade `%s`' % short(X), where)
                 okv = d['ok']
-                if not (cm.is_call_to(okv, 'grade_decimal_to_ok', 1) and nf.equal(okv.args[0], X)):
-                    if cm.is_call_to(okv, 'grade_decimal_to_ok', 1):
-                        r.violation(construct + ': ok', "'ok' is computed from `%s` while the grade is `%s`: the pair is inconsistent"
-                                    % (short(okv.args[0]), short(X)), where)
-                    else:
-                        r.undecided(construct + ': ok', "'ok' = `%s`" % short(okv), where)
+                if cm.is_call_to(okv, 'grade_decimal_to_ok', 1) and not nf.equal(okv.args[0], X):
+                    # not a violation of C07: process_grade_list (the only caller) recomputes 'ok' after scaling (D3)
+                    r.note("consolidate_single_return computes 'ok' from `%s` while the grade is `%s` (overwritten by process_grade_list)"
+                           % (short(okv.args[0]), short(X)))
         for case in [(a, b) for a in (True, False) for b in (0.0, 0.5, 0.999999, 1.0)]:
             if case not in table:
                 r.undecided('consolidate_single_return: case split', 'no path for partial_credit=%s, below=%s' % case, fi.loc)
@@ -347,6 +354,11 @@ def _eval_switch(g, pc, below):
     if isinstance(g, ast.UnaryOp) and isinstance(g.op, ast.Not):
         v = _eval_switch(g.operand, pc, below)
         return None if v is None else (not v)
+    if isinstance(g, ast.BoolOp):
+        vs = [_eval_switch(v, pc, below) for v in g.values]
+        if None in vs:
+            return None
+        return all(vs) if isinstance(g.op, ast.And) else any(vs)
     if cm.is_name(g, 'partial_credit'):
         return pc
     if isinstance(g, ast.Compare) and len(g.ops) == 1:
@@ -371,7 +383,7 @@ def _eval_switch(g, pc, below):
 # ------------------------------------------------------------------------------- D3
 def d3_process(ctx, idx):
     r = ctx.rule('D3.PROCESS', 'all_awarded = every item earned credit; answer message only under all_awarded; grade scaled '
-                 'by the answer credit and ok recomputed', floor=8)
+                 'by the answer credit and ok recomputed', floor=11)
     with r:
         fi = idx.func(SLG + '.process_grade_list')
         if fi.params[1:] != ['grade_list', 'num_answers', 'msg', 'grade_decimal']:
@@ -518,7 +530,7 @@ def d3_process(ctx, idx):
 
 # ------------------------------------------------------------------------------- D4
 def d4_check_response(ctx, idx):
-    r = ctx.rule('D4.CHECK', 'split by the delimiter; length check, then blank-item check, then grading of the padded lists', floor=14)
+    r = ctx.rule('D4.CHECK', 'split by the delimiter; length check, then blank-item check, then grading of the padded lists', floor=16)
     with r:
         fi = idx.func(SLG + '.check_response')
         if fi.params[1:3] != ['answer', 'student_input']:
@@ -820,7 +832,7 @@ def _grading(r, idx, fi, selfn, ANS, STU):
 # ------------------------------------------------------------------------------- D5
 def d5_padding(ctx, idx):
     r = ctx.rule('D5.PAD', 'automatic failures on either side score zero with all_awarded False; both lists are padded to the '
-                 'common maximum on copies', floor=8)
+                 'common maximum on copies', floor=10)
     with r:
         outer = idx.func(cm.LG_MOD + '.padded_check')
         inner_q = cm.LG_MOD + '.padded_check.<locals>._check'
@@ -905,8 +917,11 @@ def d5_padding(ctx, idx):
         rets = lib.returns_of(gp.node)
         if len(rets) != 1 or not (isinstance(rets[0].value, ast.Tuple) and len(rets[0].value.elts) == 2):
             raise AnalysisError('get_padded_lists: expected `return a, b`')
+        mutated = {pn for node, how, pn in muts}
         for pos, (e, L) in enumerate(zip(rets[0].value.elts, (L1, L2))):
             construct = 'get_padded_lists: padded list %d' % (pos + 1)
+            if L in mutated:
+                continue
             v = cm.deref(gp, e)
             where = lib.loc(gp, v) if hasattr(v, 'lineno') else gp.loc
             vv = nf.canon(lib.inline_locals(v, gp.node))
@@ -1026,3 +1041,112 @@ def d6_infer(ctx, idx):
             recv = c.func.value if isinstance(c.func, ast.Attribute) else None
             r.check(cm.is_name(recv, ps.params[0]), construct + ' (receiver)', 'self.infer_from_expect',
                     'conversion uses `%s`' % short(c.func), where)
+
+
+# ------------------------------------------------------------------------ self-test
+_LEN_BLOCK = ("        if self.config['length_error'] and len(answers) != len(student_list):\n"
+              "            msg = 'List length error: Expected {} terms in the list, but received {}. ' + \\\n"
+              "                  'Separate items with character \"{}\"'\n"
+              "            raise MissingInput(msg.format(len(answers),\n"
+              "                                          len(student_list),\n"
+              "                                          self.config['delimiter']))\n")
+_MID = "\n        # Check for empty entries in the list\n"
+_BLANK_BLOCK = ("        if self.config['missing_error']:\n"
+                "            bad_items = [idx+1 for (idx, item) in enumerate(student_list)\n"
+                "                         if item.strip() == '']\n"
+                "            if bad_items:\n"
+                "                if len(bad_items) == 1:\n"
+                "                    msg = 'List error: Empty entry detected in position '\n"
+                "                else:\n"
+                "                    msg = 'List error: Empty entries detected in positions '\n"
+                "                msg += ', '.join(map(str, bad_items))\n"
+                "                raise MissingInput(msg)\n")
+
+MUTANTS = [
+    # D1
+    Mutant('surplus-penalty-zero', LG, "        grade_decimals += [-1] * n_extra", "        grade_decimals += [0] * n_extra", 'D1'),
+    Mutant('surplus-penalty-half', LG, "        grade_decimals += [-1] * n_extra", "        grade_decimals += [-0.5] * n_extra", 'D1'),
+    Mutant('surplus-not-padded', LG, "    if n_extra > 0:\n        grade_decimals += [-1] * n_extra\n    elif n_extra < 0:", "    if n_extra < 0:", 'D1'),
+    Mutant('surplus-guard-off-by-one', LG, "    if n_extra > 0:\n        grade_decimals += [-1] * n_extra", "    if n_extra > 1:\n        grade_decimals += [-1] * n_extra", 'D1'),
+    Mutant('divisor-len-grades', LG, "    avg = sum(grade_decimals)/n_expect", "    avg = sum(grade_decimals)/len(grade_decimals)", 'D1'),
+    Mutant('clamp-removed', LG, "    return max(0, avg)", "    return avg", 'D1'),
+    Mutant('clamp-min', LG, "    return max(0, avg)", "    return min(0, avg)", 'D1'),
+    Mutant('clamp-at-one', LG, "    return max(0, avg)", "    return max(1, avg)", 'D1'),
+    Mutant('surplus-count-swapped', LG, "    n_extra = len(grade_decimals) - n_expect", "    n_extra = n_expect - len(grade_decimals)", 'D1'),
+    Mutant('missing-penalised', LG, "        grade_decimals += [0] * abs(n_extra)", "        grade_decimals += [-1] * abs(n_extra)", 'D1'),
+    # D2
+    Mutant('switch-le-one', LG, "        if grade_decimal < 1:\n            grade_decimal = 0", "        if grade_decimal <= 1:\n            grade_decimal = 0", 'D2'),
+    Mutant('switch-inverted', LG, "    if not partial_credit:\n        if grade_decimal < 1:", "    if partial_credit:\n        if grade_decimal < 1:", 'D2'),
+    Mutant('switch-threshold', LG, "        if grade_decimal < 1:\n            grade_decimal = 0", "        if grade_decimal < 0.5:\n            grade_decimal = 0", 'D2'),
+    Mutant('messages-unfiltered', LG, "'msg': '\\n'.join([message for message in messages if message != ''])", "'msg': '\\n'.join(messages)", 'D2'),
+    Mutant('messages-filter-inverted', LG, "[message for message in messages if message != '']", "[message for message in messages if message == '']", 'D2'),
+    Mutant('n-expect-not-forwarded', LG, "    grade_decimal = consolidate_grades(grade_decimals, n_expect)", "    grade_decimal = consolidate_grades(grade_decimals)", 'D2'),
+    # D3
+    Mutant('all-awarded-ge', LG, "all(item['grade_decimal'] > 0 for item in grade_list)", "all(item['grade_decimal'] >= 0 for item in grade_list)", 'D3'),
+    Mutant('all-awarded-any', LG, "all(item['grade_decimal'] > 0 for item in grade_list)", "any(item['grade_decimal'] > 0 for item in grade_list)", 'D3'),
+    Mutant('message-unconditional', LG, "        if all_awarded and msg != '':", "        if msg != '':", 'D3'),
+    Mutant('message-when-not-awarded', LG, "        if all_awarded and msg != '':", "        if not all_awarded and msg != '':", 'D3'),
+    Mutant('message-replaces-item-messages', LG, "            result['msg'] = msg if result['msg'] == '' else result['msg'] + '\\n' + msg", "            result['msg'] = msg", 'D3'),
+    Mutant('ok-not-recomputed', LG, "        result['grade_decimal'] *= grade_decimal\n        result['ok'] = AbstractGrader.grade_decimal_to_ok(result['grade_decimal'])\n",
+           "        result['grade_decimal'] *= grade_decimal\n", 'D3'),
+    Mutant('ok-before-scaling', LG, "        result['grade_decimal'] *= grade_decimal\n        result['ok'] = AbstractGrader.grade_decimal_to_ok(result['grade_decimal'])\n",
+           "        result['ok'] = AbstractGrader.grade_decimal_to_ok(result['grade_decimal'])\n        result['grade_decimal'] *= grade_decimal\n", 'D3'),
+    Mutant('answer-credit-ignored', LG, "        result['grade_decimal'] *= grade_decimal\n", "", 'D3'),
+    Mutant('answer-credit-added', LG, "        result['grade_decimal'] *= grade_decimal\n", "        result['grade_decimal'] += grade_decimal\n", 'D3'),
+    Mutant('expected-count-from-grades', LG, "                                           n_expect=num_answers,", "                                           n_expect=len(grade_list),", 'D3'),
+    Mutant('partial-credit-not-forwarded', LG, "partial_credit=self.config['partial_credit'])", "partial_credit=True)", 'D3'),
+    Mutant('all-awarded-not-published', LG, "        result['all_awarded'] = all_awarded\n", "", 'D3'),
+    # D4
+    Mutant('checks-swapped', LG, _LEN_BLOCK + _MID + _BLANK_BLOCK, _BLANK_BLOCK + _MID + _LEN_BLOCK, 'D4'),
+    Mutant('length-error-class', LG, "            raise MissingInput(msg.format(len(answers),", "            raise ConfigError(msg.format(len(answers),", 'D4'),
+    Mutant('blank-error-class', LG, "                raise MissingInput(msg)", "                raise ValueError(msg)", 'D4'),
+    Mutant('length-condition-eq', LG, "if self.config['length_error'] and len(answers) != len(student_list):", "if self.config['length_error'] and len(answers) == len(student_list):", 'D4'),
+    Mutant('length-flag-ignored', LG, "if self.config['length_error'] and len(answers) != len(student_list):", "if len(answers) != len(student_list):", 'D4'),
+    Mutant('length-check-after-grading', LG, _LEN_BLOCK + _MID, _MID[1:], 'D4'),
+    Mutant('blank-no-strip', LG, "                         if item.strip() == '']", "                         if item == '']", 'D4'),
+    Mutant('blank-flag-inverted', LG, "        if self.config['missing_error']:\n            bad_items", "        if not self.config['missing_error']:\n            bad_items", 'D4'),
+    Mutant('unordered-unpadded', LG, "grade_list = find_optimal_order(checker, pad_ans, pad_stud)", "grade_list = find_optimal_order(checker, answers, student_list)", 'D4'),
+    Mutant('unordered-raw-check', LG, "grade_list = find_optimal_order(checker, pad_ans, pad_stud)", "grade_list = find_optimal_order(self.config['subgrader'].check, pad_ans, pad_stud)", 'D4'),
+    Mutant('unordered-roles-swapped', LG, "grade_list = find_optimal_order(checker, pad_ans, pad_stud)", "grade_list = find_optimal_order(checker, pad_stud, pad_ans)", 'D4'),
+    Mutant('ordered-unpadded-zip', LG, "for pair in zip(pad_ans, pad_stud)]", "for pair in zip(answers, student_list)]", 'D4'),
+    Mutant('ordered-zip-swapped', LG, "for pair in zip(pad_ans, pad_stud)]", "for pair in zip(pad_stud, pad_ans)]", 'D4'),
+    Mutant('ordered-switch-inverted', LG, "        if self.config['ordered']:\n            grade_list = [checker", "        if not self.config['ordered']:\n            grade_list = [checker", 'D4'),
+    Mutant('expected-count-from-submission', LG, "self.process_grade_list(grade_list, len(answers), msg, grade_decimal)", "self.process_grade_list(grade_list, len(student_list), msg, grade_decimal)", 'D4'),
+    Mutant('padding-roles-swapped', LG, "pad_ans, pad_stud = get_padded_lists(answers, student_list)", "pad_stud, pad_ans = get_padded_lists(answers, student_list)", 'D4'),
+    Mutant('split-on-comma', LG, "student_list = student_input.split(self.config['delimiter'])", "student_list = student_input.split(',')", 'D4'),
+    Mutant('answer-credit-constant', LG, "        grade_decimal = answer['grade_decimal']\n\n        # Split", "        grade_decimal = 1\n\n        # Split", 'D4'),
+    # D5
+    Mutant('failure-needs-both-sides', LG, "isinstance(ans, _AutomaticFailure) or isinstance(inp, _AutomaticFailure)", "isinstance(ans, _AutomaticFailure) and isinstance(inp, _AutomaticFailure)", 'D5'),
+    Mutant('failure-only-answer-side', LG, "isinstance(ans, _AutomaticFailure) or isinstance(inp, _AutomaticFailure)", "isinstance(ans, _AutomaticFailure)", 'D5'),
+    Mutant('failure-all-awarded', LG, "'grade_decimal': 0, 'all_awarded': False}", "'grade_decimal': 0, 'all_awarded': True}", 'D5'),
+    Mutant('failure-full-credit', LG, "'grade_decimal': 0, 'all_awarded': False}", "'grade_decimal': 1, 'all_awarded': False}", 'D5'),
+    Mutant('failure-no-all-awarded', LG, "'grade_decimal': 0, 'all_awarded': False}", "'grade_decimal': 0}", 'D5'),
+    Mutant('pad-inputs-only', LG, "    padded1 = list1 + [_AutomaticFailure()]*(maxlen-len(list1))", "    padded1 = list1", 'D5'),
+    Mutant('pad-answers-only', LG, "    padded2 = list2 + [_AutomaticFailure()]*(maxlen-len(list2))", "    padded2 = list2[:]", 'D5'),
+    Mutant('pad-to-minimum', LG, "    maxlen = max(len(list1), len(list2))", "    maxlen = min(len(list1), len(list2))", 'D5'),
+    Mutant('pad-in-place', LG, "    padded1 = list1 + [_AutomaticFailure()]*(maxlen-len(list1))", "    list1 += [_AutomaticFailure()]*(maxlen-len(list1))\n    padded1 = list1", 'D5'),
+    Mutant('padded-check-unwrapped', LG, "        return check(ans, inp)\n    return _check", "        return check(ans, inp)\n    return check", 'D5'),
+    Mutant('padded-check-args-swapped', LG, "        return check(ans, inp)\n    return _check", "        return check(inp, ans)\n    return _check", 'D5'),
+    # D6
+    Mutant('infer-literal-delimiter', LG, "        answers = expect.split(self.config['delimiter'])", "        answers = expect.split(',')", 'D6'),
+    Mutant('infer-recursion-on-self', LG, "answers[idx] = self.config['subgrader'].infer_from_expect(entry)", "answers[idx] = self.infer_from_expect(entry)", 'D6'),
+    Mutant('infer-no-recursion', LG, "            for idx, entry in enumerate(answers):\n                answers[idx] = self.config['subgrader'].infer_from_expect(entry)\n", "            pass\n", 'D6'),
+    Mutant('strings-test-inverted', LG, "self.infer_from_expect(x) if isinstance(x, str) else x", "self.infer_from_expect(x) if not isinstance(x, str) else x", 'D6'),
+]
+
+BENIGN = [
+    Benign('clamp-argument-order', LG, "    return max(0, avg)", "    return max(avg, 0)"),
+    Benign('missing-padding-dropped', LG, "    elif n_extra < 0:\n        grade_decimals += [0] * abs(n_extra)\n", ""),
+    Benign('surplus-guard-ge-one', LG, "    if n_extra > 0:\n        grade_decimals += [-1] * n_extra", "    if n_extra >= 1:\n        grade_decimals += [-1] * n_extra"),
+    Benign('surplus-new-list', LG, "        grade_decimals += [-1] * n_extra", "        grade_decimals = grade_decimals + [-1] * n_extra"),
+    Benign('switch-combined', LG, "    if not partial_credit:\n        if grade_decimal < 1:\n            grade_decimal = 0\n", "    if not partial_credit and grade_decimal < 1:\n        grade_decimal = 0\n"),
+    Benign('ok-before-zeroing', LG, "    if not partial_credit:\n        if grade_decimal < 1:\n            grade_decimal = 0\n    ok_status = AbstractGrader.grade_decimal_to_ok(grade_decimal)\n",
+           "    ok_status = AbstractGrader.grade_decimal_to_ok(grade_decimal)\n    if not partial_credit:\n        if grade_decimal < 1:\n            grade_decimal = 0\n"),
+    Benign('all-awarded-list-form', LG, "all(item['grade_decimal'] > 0 for item in grade_list)", "all([item['grade_decimal'] > 0 for item in grade_list])"),
+    Benign('message-guard-nested', LG, "        if all_awarded and msg != '':\n            result['msg'] = msg if result['msg'] == '' else result['msg'] + '\\n' + msg",
+           "        if all_awarded:\n            if msg != '':\n                result['msg'] = msg if result['msg'] == '' else result['msg'] + '\\n' + msg"),
+    Benign('ordered-explicit-pairs', LG, "grade_list = [checker(*pair) for pair in zip(pad_ans, pad_stud)]", "grade_list = [checker(a, s) for a, s in zip(pad_ans, pad_stud)]"),
+    Benign('length-message-reworded', LG, "msg = 'List length error: Expected {} terms in the list, but received {}. ' + \\", "msg = 'Wrong number of items: expected {}, received {}. ' + \\"),
+    Benign('scaling-explicit', LG, "        result['grade_decimal'] *= grade_decimal\n", "        result['grade_decimal'] = grade_decimal * result['grade_decimal']\n"),
+    Benign('log-before-grading', LG, "        pad_ans, pad_stud = get_padded_lists(answers, student_list)\n", "        self.log('grading a list')\n        pad_ans, pad_stud = get_padded_lists(answers, student_list)\n"),
+]
